@@ -1023,23 +1023,43 @@ func (fr *Frame) loopNested(inner int, li *loopInfo) bool {
 
 // loopCalls: the loop contains a direct call of a function or method with that name.
 func (fr *Frame) loopCalls(li *loopInfo, name string) bool {
-	for b := range li.blocks {
-		for _, in := range b.Instrs {
-			ci, ok := in.(ssa.CallInstruction)
-			if !ok {
-				continue
-			}
-			cc := ci.Common()
-			if cc.IsInvoke() {
-				if cc.Method.Name() == name {
+	seen := map[*ssa.Function]bool{}
+	var inBlocks func(blocks []*ssa.BasicBlock) bool
+	inBlocks = func(blocks []*ssa.BasicBlock) bool {
+		for _, b := range blocks {
+			for _, in := range b.Instrs {
+				ci, ok := in.(ssa.CallInstruction)
+				if !ok {
+					continue
+				}
+				cc := ci.Common()
+				if cc.IsInvoke() {
+					if cc.Method.Name() == name {
+						return true
+					}
+					continue
+				}
+				fn := cc.StaticCallee()
+				if fn == nil {
+					continue
+				}
+				if hookName(fn.Name()) == name {
 					return true
 				}
-				continue
-			}
-			if fn := cc.StaticCallee(); fn != nil && hookName(fn.Name()) == name {
-				return true
+				// hooks also see the calls made by callees whose contract says "inline"
+				if fc := fr.en.CS.Funcs[FuncKey(fn)]; fc != nil && fc.Inline && !seen[fn] {
+					seen[fn] = true
+					if inBlocks(fn.Blocks) {
+						return true
+					}
+				}
 			}
 		}
+		return false
 	}
-	return false
+	var bs []*ssa.BasicBlock
+	for b := range li.blocks {
+		bs = append(bs, b)
+	}
+	return inBlocks(bs)
 }
